@@ -37,8 +37,21 @@ pub struct ParseOptions { _p: () }
 #[derive(Clone, Copy)]
 pub struct ParseFlags { pub bits: u16 }
 pub open spec fn has_stream_flag(f: ParseFlags) -> bool { f.bits & 2 == 2 }   // STREAM = 1 << 1
+// bitflags operators a change to the flag plumbing is likely to use (bitflags 2 semantics: set union / difference)
+impl core::ops::BitOr for ParseFlags {
+    type Output = ParseFlags;
+    #[verifier::external_body]
+    fn bitor(self, o: ParseFlags) -> (r: ParseFlags) ensures r.bits == self.bits | o.bits { ParseFlags { bits: self.bits | o.bits } }
+}
+impl core::ops::Sub for ParseFlags {
+    type Output = ParseFlags;
+    #[verifier::external_body]
+    fn sub(self, o: ParseFlags) -> (r: ParseFlags) ensures r.bits == self.bits & !o.bits { ParseFlags { bits: self.bits & !o.bits } }
+}
 impl ParseFlags {
     pub const STREAM: ParseFlags = ParseFlags { bits: 2 };
+    pub const REF: ParseFlags = ParseFlags { bits: 512 };
+    pub const INTEGER: ParseFlags = ParseFlags { bits: 1 };
     // bitflags: `contains(other)` == all bits of other are set
     #[verifier::external_body]
     pub fn contains(&self, other: ParseFlags) -> (r: bool) ensures r == (self.bits & other.bits == other.bits) { unimplemented!() }
